@@ -20,6 +20,7 @@ import (
 
 	"github.com/taskctl/taskctl/internal/config"
 	"github.com/taskctl/taskctl/internal/vh/common"
+	"github.com/taskctl/taskctl/internal/watch"
 )
 
 // LoadCase is one generated input: a set of files plus the file to load.
@@ -121,6 +122,15 @@ func loadInProcess(dir string, c LoadCase) loadResult {
 		return r
 	case <-time.After(30 * time.Second):
 		return loadResult{hang: true}
+	}
+}
+
+// release closes the inotify instances held by the watchers of a loaded configuration.
+func (r loadResult) release() {
+	if r.cfg != nil {
+		for _, w := range r.cfg.Watchers {
+			watch.VerifClose(w)
+		}
 	}
 }
 
